@@ -991,7 +991,7 @@ class XsdList(XsdSimpleType):
     def raw_decode(self, obj: str | bytes, validation: str, context: ValidationContext) \
             -> list[AtomicValueType | None]:
         items = []
-        for chunk in self.normalize(obj).split():
+        for chunk in filter(None, self._REGEX_SPACES.split(self.normalize(obj))):
             result = self.item_type.raw_decode(chunk, validation, context)
 
             if isinstance(result, list):
